@@ -154,7 +154,15 @@ class Gen:
         if x < insert_bias:
             return "I/%s/%d" % (ks(self.key()), self.val())
         if self.alias and r.random() < 0.12:
-            c = r.choice(["IV", "IV", "IV", "IK", "IKV", "GK", "RK", "NK", "NT"])
+            c = r.choice(["IV", "IV", "IV", "IK", "IKV", "GK", "RK", "NK", "NT", "RC", "GC", "PG", "PB", "PI", "PR", "PC", "PL", "PL"])
+            if self.kind == "L" and c == "GC":
+                c = "RC"                      # HList has no operator[]
+            if c in ("RC", "GC"):
+                return "%s/%s" % (c, ks(self.key()))
+            if c == "PI":
+                return "PI/%d/%d" % (self.small(), self.val())
+            if c in ("PG", "PB", "PR", "PC", "PL"):
+                return "%s/%d" % (c, self.small())
             if c == "IV":
                 return "IV/%s/%s" % (ks(self.key()), ks(self.key()))
             if c == "IK":
@@ -193,9 +201,9 @@ def exhaustive_ops(kind, alias=False):
     if kind != "L":
         ops += ["G/%s" % a, "A/%s/9" % b]
     if alias:
-        ops += ["IK/0/6", "RK/1", "NK/0/99", "NT/0/%s" % b]
+        ops += ["IK/0/6", "RK/1", "NK/0/99", "NT/0/%s" % b, "RC/%s" % a, "PI/0/4", "PR/0", "PC/1", "PL/0"]
         if kind != "L":
-            ops += ["IV/%s/%s" % (aa, a), "IV/%s/%s" % (b, a), "IKV/0/1", "GK/0"]
+            ops += ["IV/%s/%s" % (aa, a), "IV/%s/%s" % (b, a), "IKV/0/1", "GK/0", "GC/%s" % aa, "PG/0", "PB/1"]
     return ops
 
 
@@ -231,10 +239,12 @@ def gen_lines(ctx):
     for kind in ("A", "B", "L"):
         for n in range(1, 18):
             fill = ";".join("I/%d/%d" % (100 + j, j + 1) for j in range(n))
-            tails = ["IK/0/90;L/100", "IK/%d/91" % (n - 1), "RK/0;IK/1/92", "NK/0/99;L/99", "NT/%d/99" % (n - 1)]
+            tails = ["IK/0/90;L/100", "IK/%d/91" % (n - 1), "RK/0;IK/1/92", "NK/0/99;L/99", "NT/%d/99" % (n - 1),
+                     "PI/0/93;PL/0", "PI/%d/94;PL/%d" % (n - 1, n - 1), "PR/0;PL/1;PC/%d" % (n - 1), "RC/100;RC/%d;PL/0" % (100 + n - 1)]
             if kind != "L":
                 tails += ["IV/99/100;L/99;L/100", "IV/99/%d;L/99" % (100 + n - 1), "IV/100/%d;L/100" % (100 + n - 1),
-                          "IKV/0/%d;L/100" % (n - 1), "IV/100/100;L/100", "GK/%d" % (n - 1), "R/100;IV/100/101;L/100"]
+                          "IKV/0/%d;L/100" % (n - 1), "IV/100/100;L/100", "GK/%d" % (n - 1), "R/100;IV/100/101;L/100",
+                          "PG/0", "PG/%d" % (n - 1), "PB/%d;GC/99;GC/100" % (n - 1)]
             for t in tails:
                 lines.append("htrun %s %s;%s" % (kind, fill, t))
     n_exh = len(lines) - n_corpus
@@ -287,7 +297,7 @@ def property_diff(line, impl_view, spec_view_):
     """First step at which the real table and the Lean slot specification differ in what the property
     is about.  Capacity and the moment tombstones are dropped are not part of the property; once they
     differ, slot numbers are no longer comparable, so the comparison stops at the next operation that
-    takes or returns a slot number (X, D, Z and the calls addressed by slot: IK IKV GK RK NK NT)."""
+    takes or returns a slot number (X, D, Z and the calls addressed by slot: IK IKV GK RK NK NT P*)."""
     ops = line.split(" ")[2].split(";")
     a, b = impl_view.split("|"), spec_view_.split("|")
     if len(a) != len(b):
@@ -295,7 +305,7 @@ def property_diff(line, impl_view, spec_view_):
     diverged = False
     for k in range(len(a)):
         c = ops[k].split("/")[0] if k < len(ops) else "?"
-        if diverged and c in ("X", "D", "Z", "IK", "IKV", "GK", "RK", "NK", "NT"):
+        if diverged and c in ("X", "D", "Z", "IK", "IKV", "GK", "RK", "NK", "NT", "PG", "PB", "PI", "PR", "PC", "PL"):
             return None, None
         if c == "X":
             if not diverged and a[k].split("#")[0] != b[k].split("#")[0]:
@@ -386,6 +396,13 @@ def run(ctx):
             # otherwise only capacity / compaction timing differs: that is a layout disagreement, already
             # recorded by ctx.correspond above, not a failure of the ordered-map property
     ctx.count("ordered-map oracle (Lean Slots spec + std::vector reference) on C++ results, steps", n_steps, len(set(lines)))
+
+    # ---- public-API audit (by overload): anything the op language does not call is put into the evidence
+    from checks import _c13_api
+    rows, uncovered = _c13_api.audit()
+    ctx.notes.append({"public_api_members": len(rows), "not_driven": uncovered})
+    if uncovered:
+        core.log("  C13 API audit: not driven: %s" % uncovered)
 
     # ---- nested tables: HArray whose values hold HArrays; related sources and destinations
     from checks import _hashtree
